@@ -9,6 +9,7 @@ import (
 	"math"
 	"strconv"
 	"strings"
+	"sync"
 	"time"
 
 	"github.com/robertkrimen/otto"
@@ -364,7 +365,17 @@ func main() {
 		env.Add(fmt.Sprintf("FCase [JLabelled 1%%nat (JBlock [JExpr (XLit (WNum 1)); JBreak 1%%nat])] %s %s %s %s", Clist(res[0].log), res[0].out, res[0].cv, Cbool(diff == "")),
 			fmt.Sprintf("%s => %s", src, res[0].String()), "miniJS+", true)
 	}
-	for i := 0; env.Count() < env.N; i++ {
+	// generate every program first (one PRNG, deterministic), run them on otto in parallel, record them in order
+	type job struct {
+		full  *fulljs.Program
+		mini  *minijs.Program
+		fres  []*fobs
+		fdiff string
+		res   []*obs
+		diff  string
+	}
+	var jobs []*job
+	for i := 0; env.Count()+len(jobs) < env.N; i++ {
 		if i >= len(pinned) && i%2 == 1 {
 			// a MiniJS+ program (functions, closures, this, arguments, call/apply/bind, constructors, all loops, switch, for-in)
 			budget := 10 + env.Rng.Intn(30)
@@ -372,15 +383,7 @@ func main() {
 				budget = 10 + env.Rng.Intn(80)
 			}
 			fp := fulljs.Generate(env.Rng, budget)
-			res, diff := runFullRoutes(fp.JS)
-			txt := fmt.Sprintf("%s => %s", fp.JS, res[0].String())
-			if diff != "" {
-				txt += " ROUTES DISAGREE:" + diff
-			}
-			for k, v := range fp.Stats {
-				env.Dist["full:"+k] += v
-			}
-			env.Add(fmt.Sprintf("FCase %s %s %s %s %s", fp.Coq, Clist(res[0].log), res[0].out, res[0].cv, Cbool(diff == "")), txt, "miniJS+", true)
+			jobs = append(jobs, &job{full: &fp})
 			continue
 		}
 		var p minijs.Program
@@ -394,8 +397,43 @@ func main() {
 			}
 			p = minijs.Generate(env.Rng, budget, env.Rng.Intn(2) == 0, 6)
 		}
+		jobs = append(jobs, &job{mini: &p})
+	}
+	work := make(chan *job)
+	var wg sync.WaitGroup
+	for w := 0; w < 12; w++ {
+		wg.Add(1)
+		go func() {
+			defer wg.Done()
+			for jb := range work {
+				if jb.full != nil {
+					jb.fres, jb.fdiff = runFullRoutes(jb.full.JS)
+				} else {
+					jb.res, jb.diff = runRoutes(jb.mini.JS(), jb.mini.InFunc)
+				}
+			}
+		}()
+	}
+	for _, jb := range jobs {
+		work <- jb
+	}
+	close(work)
+	wg.Wait()
+	for _, jb := range jobs {
+		if jb.full != nil {
+			fp, res, diff := jb.full, jb.fres, jb.fdiff
+			txt := fmt.Sprintf("%s => %s", fp.JS, res[0].String())
+			if diff != "" {
+				txt += " ROUTES DISAGREE:" + diff
+			}
+			for k, v := range fp.Stats {
+				env.Dist["full:"+k] += v
+			}
+			env.Add(fmt.Sprintf("FCase %s %s %s %s %s", fp.Coq, Clist(res[0].log), res[0].out, res[0].cv, Cbool(diff == "")), txt, "miniJS+", true)
+			continue
+		}
+		p, res, diff := jb.mini, jb.res, jb.diff
 		src := p.JS()
-		res, diff := runRoutes(src, p.InFunc)
 		agree := diff == ""
 		mode := "0"
 		if p.InFunc {
